@@ -177,21 +177,24 @@ def run (op : String) (a : Json) : Option (Except String Json) :=
   | "conc.run" => some do
       let U ← universeOf a
       let w ← worldOf a
-      let warm ← getBool a "warm"
+      let warmMods ← optNat a "warm_mods"
       let ps ← getArr a "progs"
       let progs ← ps.mapM fun j => do
         let k ← getStr j "k"
         match String.ofList k with
         | "build" => pure (Prog.build (← getNat j "c") (← optStr j "pns"))
         | "find_types" => pure (Prog.findTypes (← getStr j "q"))
+        | "reset" => pure Prog.reset
         | k => .error s!"bad prog {k}"
       let sch ← getArr a "schedule"
       let schedule ← sch.mapM fun j => match j.getNat? with
         | .ok n => pure n
         | .error _ => .error "bad schedule entry"
-      let s0 := if warm then doBuildXsi U w State.init else State.init
+      let s0 := match warmMods with
+        | some m => doBuildXsi U ⟨w.loaded, m⟩ State.init
+        | none => State.init
       let sys := drain U w (runSched U w (Sys.start s0 progs) schedule)
-      pure <| ok (jObj [("results", jList (jOpt jOut) sys.results), ("state", jState sys.shared)])
+      pure <| ok (jObj [("results", jList (jOpt jOut) sys.results), ("state", jState sys.shared.toState)])
   | _ => none
 
 end OpsCtx
